@@ -98,6 +98,7 @@ func concExplore(c *Ctx, id string, scs []*concScenario, boundQuick, boundThorou
 	if os.Getenv("VERIF_WIDE") != "1" {
 		c.Info["concurrent_part"] = "skipped: the wide instrumentation did not build on this tree (see check.sh)"
 		c.Note("concurrent part skipped: no wide instrumentation")
+		c.Exhaustive = false
 		return
 	}
 	hooks := vatomic.Hooks
